@@ -15,6 +15,8 @@
 //!   action <nonce> <merge-tags|-> <pub-tags|->   ClientState::action publishing the pub commands
 //!   newgraph <nonce> <pub-tags|->            ClientState::new_graph publishing the pub commands (first = init) -> ok <graph-id tag> | err <kind>
 //!   heads | committed | facts | stamp | exists | tips <t>      observations
+//! `add`/`flush`/`tips` on a transaction that is already doomed (the head set was committed again
+//! after it first read the heads) are executed but answered `stale` — see `World::is_stale`.
 //!
 //! Tags are the first 8 hex digits of an id.
 
@@ -438,6 +440,8 @@ pub struct World {
     stamps: Vec<HeadSetOffset>,
     sink_pos: usize,
     prev_committed: BTreeSet<CmdId>,
+    /// stamp index the transaction in a slot saw when it first read the heads (from the real code)
+    read_stamp: BTreeMap<u64, String>,
     pub label: String,
 }
 
@@ -462,6 +466,7 @@ impl World {
             stamps: vec![],
             sink_pos: 0,
             prev_committed: BTreeSet::new(),
+            read_stamp: BTreeMap::new(),
             label: label.to_string(),
         }
     }
@@ -589,6 +594,20 @@ impl World {
         }
     }
 
+    /// A transaction is *stale* once the head set was committed again after it first read the heads:
+    /// it can never commit (`ConcurrentTransaction`, C08).  The property texts constrain what such a
+    /// transaction does to the COMMITTED state (nothing) and what its commit returns; what it
+    /// accepts, braids or emits meanwhile is not constrained (it may hold its own uncommitted copy of
+    /// a command another transaction committed, so that a merge braids over both copies).  Its
+    /// `add`/`flush`/`tips` are therefore executed (panics and changes of the committed state are
+    /// still violations) but answered `stale` on both sides.
+    fn is_stale(&mut self, n: u64) -> bool {
+        match self.read_stamp.get(&n).cloned() {
+            Some(s) => s != self.stamp_index(),
+            None => false,
+        }
+    }
+
     /// Execute one request line on the real code; record request + answer; run the oracle.
     pub fn exec(&mut self, rec: &mut Recorder, line: &str) {
         let t: Vec<&str> = line.split(' ').filter(|x| !x.is_empty()).collect();
@@ -640,6 +659,7 @@ impl World {
                 };
                 let trx = self.r.transaction();
                 self.trxs.insert(n, trx);
+                self.read_stamp.remove(&n);
                 self.o.trx.insert(n, OTrx::default());
                 rec.line(line, "ok");
             }
@@ -649,6 +669,7 @@ impl World {
                     return;
                 };
                 self.trxs.remove(&n);
+                self.read_stamp.remove(&n);
                 self.o.trx.remove(&n);
                 rec.line(line, "ok");
             }
@@ -662,8 +683,31 @@ impl World {
                     return;
                 };
                 let _ = audit_take();
+                let stale = self.is_stale(n);
                 let res = vh::catch(std::panic::AssertUnwindSafe(|| self.r.add(&mut trx, &batch)));
+                let snapped = trx.verif_tips().3;
                 self.trxs.insert(n, trx);
+                if snapped && !self.read_stamp.contains_key(&n) {
+                    let st = self.stamp_index();
+                    self.read_stamp.insert(n, st);
+                }
+                if stale {
+                    rec.count("stale:add");
+                    let _ = self.sink_delta();
+                    match &res {
+                        Err(p) => rec.panics.push(format!("{}: add_commands on a stale transaction panicked: {p}", self.label)),
+                        Ok(Err(aranya_runtime::ClientError::Bug(b))) => {
+                            rec.line(line, "stale");
+                            self.fail(rec, format!("`{line}` on a stale transaction hit an internal bug assertion: {b:?}"));
+                            self.check_committed_state(rec, line);
+                            return;
+                        }
+                        _ => {}
+                    }
+                    rec.line(line, "stale");
+                    self.check_committed_state(rec, line);
+                    return;
+                }
                 let res = match res {
                     Ok(r) => r.map(|k| k.to_string()).map_err(|e| err_kind(&e)),
                     Err(p) => {
@@ -698,6 +742,12 @@ impl World {
                     Err(e) => Err(format!("Storage:{e:?}")),
                 };
                 self.trxs.insert(n, trx);
+                if self.is_stale(n) {
+                    rec.count("stale:flush");
+                    rec.line(line, "stale");
+                    self.check_committed_state(rec, line);
+                    return;
+                }
                 rec.line(line, res_line(&res));
                 let want: Result<String, String> = if self.o.exists { Ok(String::new()) } else { Err("Storage:NoSuchStorage".into()) };
                 if res != want {
@@ -714,6 +764,7 @@ impl World {
                     rec.line(line, "err NoTrx");
                     return;
                 };
+                self.read_stamp.remove(&n);
                 let _ = audit_take();
                 let res = vh::catch(std::panic::AssertUnwindSafe(|| self.r.commit(trx)));
                 let res = match res {
@@ -929,10 +980,16 @@ impl World {
                     rec.line(line, "bad-op");
                     return;
                 };
+                let stale = self.is_stale(n);
                 let Some(trx) = self.trxs.get(&n) else {
                     rec.line(line, "err NoTrx");
                     return;
                 };
+                if stale {
+                    rec.count("stale:tips");
+                    rec.line(line, "stale");
+                    return;
+                }
                 let (hs, ph, has_p, snapped) = trx.verif_tips();
                 rec.line(
                     line,
